@@ -5,6 +5,7 @@ from .. import core, qeval, qgen
 from .. import gen as G
 
 LEVEL = "proof"
+READY = True
 CLAIM = {
     "text": "Lean theorems over ALL values and ALL well-typed standard filter expressions at any nesting depth: the comparison of the model of "
             "env.compare/_eq/_lt equals the RFC 9535 2.3.5.2.2 table on Option J (absent equals only absent; < <= > >= only between two numbers or two strings; "
